@@ -12,6 +12,9 @@ Items (JSON-able):
   {"k":"in","ep":E,"ack":a}  {"k":"out","ep":E,"n":len,"flip":f}  {"k":"ping","ep":E}  {"k":"sof"}
   {"k":"xin","ep":E,"n":len,"ack":a}  (feed + wait + IN)   {"k":"feed","ep":E,"n":len,"last":l}  {"k":"sig","v":V}  {"k":"idle","n":N}  {"k":"reset","n":N}
   {"k":"probe","addr":A|"dev","ack":a}      IN to the status endpoint at an explicit address
+  {"k":"xdev","dir":"in"|"out"|"setup","ep":E,"xor":k,"ack":a,"n":N,"req":[..]}   a transaction of the host with
+        another device (address = ours XOR k): IN token [+ the host's ACK of that device's -- here invisible --
+        data after N more idle cycles], OUT token + N data bytes, SETUP token + request; our device stays silent
 """
 from hypothesis import strategies as st
 
@@ -128,6 +131,19 @@ class Builder:
             self.add(dict(op="reset", n=it["n"]))
         elif k == "probe":
             self.add(dict(op="in", ep=self.sig_ep, ack=it.get("ack", 0), addr=it.get("addr", "dev"), probe=1, x=inside))
+        elif k == "xdev":
+            # one transaction between the host and ANOTHER device on the bus (address = ours XOR xor, xor != 0)
+            addr = {"xor": (it.get("xor", 1) & 0x7F) or 1}
+            d = it.get("dir", "in")
+            if d == "in":
+                self.add(dict(op="in", ep=it.get("ep", 0), addr=addr, ack=0, xack=it.get("ack", 1), gap=it.get("n", 0),
+                              xdev=1, x=inside))
+            elif d == "out":
+                self.add(dict(op="out", ep=it.get("ep", 0), addr=addr, data=self._bytes(it.get("n", 0)), xdev=1, x=inside))
+            elif d == "setup":
+                self.add(dict(op="setup", addr=addr, req=list(it["req"]), xdev=1, x=inside))
+            else:
+                raise ValueError(d)
         else:
             raise ValueError(k)
 
